@@ -64,7 +64,7 @@ class WrappersDriver:
             ctx.updated(interp.A(v=9)).__enter__()  # changes only the function's own (copied) context
         self.started.set()
         if threaded and not on_loop:
-            self.release.wait(10)
+            self.release.wait(120)
         o = self.s["outcome"]
         if o == "val":
             return self.VAL
@@ -161,7 +161,7 @@ class WrappersDriver:
 
             w.do("1", "call", run)
             if self.s["kind"].startswith("asynchronous"):
-                self.started.wait(5)
+                self.started.wait(60)
                 w.loop.quiesce()
                 if w.status("1") == "busy":
                     return self._obs("running")
@@ -175,7 +175,7 @@ class WrappersDriver:
             return self._obs("running")
         if name == "Finish":
             self.release.set()
-            for _ in range(5000):
+            for _ in range(60000):
                 w.loop.quiesce()
                 if w.status("1") != "busy":
                     break
